@@ -77,6 +77,21 @@ def handleBuild (op : String) (args : List String) : Option String :=
     | _, .error e => bErr e
   | "bcsv", [text] =>
     some <| "ok\t" ++ joinWith "\t" ((csvParse text.toList).map fun row => encode (packF (row.map String.ofList)))
+  | "bsetup", pkgName :: dirs =>
+    let rs : String := "\x1e"
+    let parseFile (s : String) : Option WalkFile :=
+      match s.splitOn rs with
+      | [n, py, ex] => some ⟨n, py == "1", ex == "1"⟩
+      | _ => none
+    let parseDir (s : String) : Option WalkDir :=
+      match fields s with
+      | rel :: fs => (fs.mapM parseFile).map fun l => ⟨pathKey rel, l⟩
+      | [] => none
+    some <| match dirs.mapM parseDir with
+    | none => "bad-arg"
+    | some walk =>
+      "ok\t" ++ encode (packF (setupPackages pkgName walk)) ++ "\t" ++
+        joinWith "\t" ((setupPackageData pkgName walk).map fun kv => encode (packF (kv.1 :: kv.2)))
   | "bint", [s] =>
     some <| match pyInt s with | some t => "ok\t" ++ toString t | none => "err\tvalue"
   | "btime", [kind, isSet, v] =>
@@ -115,10 +130,11 @@ def handleBuild (op : String) (args : List String) : Option String :=
           encode (recordText di (run {} ops).records) ++ "\t" ++ toString ops.length ++ "\t" ++
           joinWith "\t" (ops.map (encode ∘ showOp) ++ es.map (fun e => encode (showMember e.member)))
     | _, _ => "bad-arg"
-  | "bsdist", tarDir :: isSet :: sde :: pkgD :: pkgN :: files =>
+  | "bsdist", tarDir :: isSet :: sde :: pkgD :: pkgN :: hasSetup :: suD :: suN :: files =>
     some <| match files.mapM parseSdistFile, pkgN.toNat? with
     | some fs, some pn =>
-      let d := describeSdist (sdeArg isSet sde) ⟨tarDir, fs, pkgD, pn⟩
+      let su : Option (String × Nat) := if hasSetup == "1" then some (suD, suN.toNat?.getD 0) else none
+      let d := describeSdist (sdeArg isSet sde) ⟨tarDir, fs, pkgD, pn, su⟩
       "ok\t" ++ toString d.gzipMtime ++ "\t" ++ joinWith "\t" (d.entries.map (encode ∘ showTar))
     | _, _ => "bad-arg"
   | _, _ => none
